@@ -108,5 +108,25 @@ CLAIMED["C16"] = {
              "enumeration of every function of the base environment and bundled modules on a value pool (C16_library_partial)."),
     "note": _EV, "technique": "Coq proof of heap frame lemmas over a Gallina model + vm_compute evaluator correspondence + snapshot enumeration",
 }
+CLAIMED["C12"] = {
+    "text": ("Theorems in coq/Props/C12.v: for a duplicate-free set of pairwise comparable NaN-free values the ascending enumeration (insertion "
+             "sort by the value order, what every enumerating kernel of the model uses) is the same for every permutation of the internal "
+             "order, and it is ascending; set/map equality ignores the internal order; the seeded generator is a function of the seed. The real "
+             "hash-seed behaviour is a runtime matter: 37 program templates (every iteration, conversion, spread, destructuring, rendering and "
+             "library path) over sets/maps of strings and mixed scalars are run in fresh processes under 8 (thorough 32) PYTHONHASHSEED values and "
+             "with permuted construction orders; all values, outputs and errors must be identical (and equal to the model evaluator's answer "
+             "inside the modelled fragment). No whole-evaluator simulation theorem (C12_eval_partial)."),
+    "note": _EV + " CPython's hash randomisation is observed, not modelled.",
+    "technique": "Coq proof of order-independence of the sorted enumeration + multi-hash-seed differential run",
+}
+CLAIMED["C13"] = {
+    "text": ("Theorems in coq/Props/C13.v over the model, where a host exception is a distinct outcome: indexing and delete_at are total (value or "
+             "the language's error) for all sequences and indices; int arithmetic is total (zero divisor = language error); calls and loops absorb "
+             "control exits; catch all intercepts every error value. For the library as a whole containment and termination are decided by the "
+             "exhaustive enumeration of the quantifier on the implementation: 223 functions and 89 syntactic forms x all argument tuples of arity "
+             "<= 2 (arity 3 sampled) from a 26-value pool, each under a 2 s bound (C13_library_partial)."),
+    "note": _EV + " The enumeration observes the runtime (exception classes, timeouts); functions acting on the process/terminal are excluded by name.",
+    "technique": "Coq proof of totality of modelled kernels + exhaustive pool enumeration on the implementation",
+}
 
 NOT_APPLICABLE = {}
